@@ -7,7 +7,7 @@ use proc_macro2::TokenStream;
 use quote::{format_ident, quote};
 
 use super::{
-    common::{generate_rule_parse_function, safe_ident},
+    common::{check_ident, check_path, generate_rule_parse_function, safe_ident},
     CodegenSettings,
 };
 use crate::grammar::{CharRule, CharRulePart};
@@ -35,6 +35,10 @@ impl CharRulePart {
 impl CharRule {
     pub fn generate_code(&self, settings: &CodegenSettings) -> Result<TokenStream> {
         let name = &self.name;
+        check_ident(name, "rule name")?;
+        for directive in &self.directives {
+            check_path(&directive.function, "check function name")?;
+        }
         let rule_type = safe_ident(&self.name);
         let parser_name = format_ident!("parse_{}", self.name);
         let parser_calls = self
